@@ -67,7 +67,7 @@ class Oracle(simcheck.BaseOracle):
         if any(p - now == delay_ms for p in pts):
             self.n_boundary += 1
         self.req.append({"kind": kind, "o": order, "t": now, "delay": delay_ms, "eff": eff, "mid": mid, "done": False,
-                         "frags0": len(order.simulated.matched), "resp0": self.responses(order, kind)})
+                         "frags0": len(order.simulated.matched), "resp0": self.responses(order, kind), "n_orders0": len(order.trade.orders)})
 
     @staticmethod
     def responses(o, kind):
@@ -126,6 +126,14 @@ class Oracle(simcheck.BaseOracle):
                         if f[0] != 0 and f[0] < r["t"]:
                             self.add("fill-before-request", "%s: fill stamped %s precedes the request" % (who, f[0]))
                 else:
+                    if r["kind"] == "replace":
+                        # the order a replace creates did not exist before the request: none of its timestamps precedes it
+                        for new in o.trade.orders[r["n_orders0"]:]:
+                            for label, stamp in (("date_time_created", new.date_time_created), ("responses.date_time_created", new.responses.date_time_created),
+                                                 ("responses.date_time_placed", new.responses._date_time_placed)):
+                                if stamp is not None and ms_of(stamp) < r["t"]:
+                                    self.add("timestamp-before-the-request", "%s: its replacement order %d has %s = %s, before the request" % (
+                                        who, getattr(new, "_vidx", -1), label, ms_of(stamp)))
                     exp = {"cancel": "CANCELLING", "update": "UPDATING", "replace": "REPLACING"}[r["kind"]]
                     if st == exp and names.count(exp) == len([q for q in self.req if q["o"] is o and q["kind"] == r["kind"] and not q["done"]]) + 0 and False:
                         pass
